@@ -58,6 +58,37 @@ theorem cond_plainInt_eq (v : Str) : Cond.plainInt v = (Pre.plainInt v).toOption
   · cases h1 : s.isEmpty <;> cases h2 : s.all isDigitA <;> simp [Except.toOption]
   · cases h1 : (s.drop 1).isEmpty <;> cases h2 : (s.drop 1).all isDigitA <;> simp [Except.toOption]
 
+/-- the model's `unquoteEtag` with its pattern match on `W/` / `w/` spelled with `startswith` -/
+theorem unquoteEtag_spec (s : List Char) :
+    Cond.unquoteEtag s =
+      if s.isEmpty then none
+      else
+        let e := Py.strip s
+        let w := startswith e ['W', '/'] || startswith e ['w', '/']
+        let g := if w then e.drop 2 else e
+        some (if g.head? == some '"' && g.getLast? == some '"' then (g.drop 1).dropLast else g, w) := by
+  unfold Cond.unquoteEtag
+  by_cases he : s.isEmpty = true
+  · simp [he]
+  · simp only [he, Bool.false_eq_true, if_false]
+    generalize Py.strip s = e
+    match e with
+    | [] => simp [startswith, List.isPrefixOf]
+    | [a] => simp [startswith, List.isPrefixOf]
+    | a :: b :: t =>
+      by_cases hb : b = '/'
+      · subst hb
+        by_cases h1 : a = 'W'
+        · subst h1; simp [startswith, List.isPrefixOf]
+        · by_cases h2 : a = 'w'
+          · subst h2; simp [startswith, List.isPrefixOf]
+          · have e1 : ('W' == a) = false := by simpa using fun h => h1 h.symm
+            have e2 : ('w' == a) = false := by simpa using fun h => h2 h.symm
+            simp [startswith, List.isPrefixOf, e1, e2, h1, h2]
+      · have e3 : ('/' == b) = false := by simpa using fun h => hb h.symm
+        simp [startswith, List.isPrefixOf, e3, hb]
+
+
 /-- what `Range.__init__` accepts -/
 def ValidPair (p : Int × Option Int) : Prop :=
   match p.2 with
